@@ -65,7 +65,7 @@ Proof.
   - intros k i (-> & Hk & Heq) Hc. rewrite ltb_of_nat in Hc. apply Nat.ltb_lt in Hc. split; [exact Hc|].
     rewrite !arr_get_nat by lia. cbn [bind].
     rewrite Heq. rewrite (skipn_nth_cons a k) by lia. rewrite (skipn_nth_cons b k) by lia. cbn [eq_digits].
-    destruct (nth k a 0 =? nth k b 0); cbn [negb].
+    rewrite ?(Z.eqb_sym (nth k b 0) (nth k a 0)). destruct (nth k a 0 =? nth k b 0); cbn [negb].
     + split; [lia|]. split; [lia | reflexivity].
     + reflexivity.
   - intros k i (-> & Hk & Heq) Hc. rewrite ltb_of_nat in Hc. apply Nat.ltb_ge in Hc.
@@ -140,8 +140,8 @@ Ltac count_up h stop a :=
   apply (loop_fold_stop_bind (fun acc j => (acc, Z.of_nat j)) (fun acc j => (acc, Z.of_nat j))
            (fun d acc => acc + h d) stop a) with (v := fun acc => acc);
   [ reflexivity | lia
-  | intros acc j Hj; rewrite ltb_of_nat; apply Nat.ltb_lt; lia
-  | intros acc; rewrite ltb_of_nat; apply Nat.ltb_ge; lia
+  | intros acc j Hj; zbool_lia
+  | intros acc; zbool_lia
   | intros acc j Hj; body_red; rewrite arr_get_nat by lia; cbn [bind]; rewrite Nat2Z.inj_succ; reflexivity
   | intros; reflexivity | intros; reflexivity ].
 
@@ -150,8 +150,8 @@ Ltac count_down h stop a n :=
   apply (loop_fold_stop_bind (fun acc j => (acc, Z.of_nat (n - j))) (fun acc j => (acc, Z.of_nat (n - S j)))
            (fun d acc => acc + h d) stop (rev a)) with (v := fun acc => acc);
   [ rewrite Nat.sub_0_r; reflexivity | rewrite rev_length; lia
-  | intros acc j Hj; rewrite rev_length in Hj; pos_cond; apply Nat.ltb_lt; lia
-  | intros acc; rewrite rev_length; pos_cond; apply Nat.ltb_ge; lia
+  | intros acc j Hj; rewrite rev_length in Hj; zbool_lia
+  | intros acc; rewrite rev_length; zbool_lia
   | intros acc j Hj; rewrite rev_length in Hj; body_red;
     change 1 with (Z.of_nat 1); rewrite usub_nat by lia; cbn [bind];
     replace (n - j - 1)%nat with (n - S j)%nat by lia;
